@@ -569,12 +569,18 @@ class Derive:
         self.outcomes = []
         self.prev_tasks, self.new_tasks = [], []
         self.done_req = set()
+        self.sidmap, self.sidinfo = {}, {}
 
     def cid(self, c):
         return self.h.cl[c]["id"]
 
     def sid(self, backend, conn):
-        return (self.bidx[backend] + 1) * 1000 + int(conn)
+        # small ids in order of first appearance (the model's nat is unary)
+        key = (backend, int(conn))
+        if key not in self.sidmap:
+            self.sidmap[key] = len(self.sidmap) + 1
+            self.sidinfo[self.sidmap[key]] = key
+        return self.sidmap[key]
 
     def cand(self, c):
         x = self.h.cl[c]
@@ -631,8 +637,7 @@ class Derive:
         for s, y in self.srv.items():
             if not y["live"] and s not in drops:
                 continue
-            b = self.w["backends"][s // 1000 - 1]
-            conn = s % 1000
+            b, conn = self.sidinfo[s]
             sent = sum(len(e["detail"].get("raw", "")) // 2 for e in win if e.get("ev") == "msg" and e["who"] == b and e["conn"] == conn and e["tag"] != "X")
             recv = sum(e["nbytes"] for e in win if e.get("ev") == "out" and e["who"] == b and e["conn"] == conn)
             if sent or recv:
@@ -826,7 +831,7 @@ class Derive:
         self.bmode[entry["b"]] = entry["mode"]
         if entry["mode"] in ("down", "refuse"):
             for s, y in self.srv.items():
-                if s // 1000 - 1 == self.bidx[entry["b"]]:
+                if self.sidinfo[s][0] == entry["b"]:
                     y["balive"] = False
 
     def k_shutdown(self, entry, ops, drops):
@@ -876,8 +881,8 @@ def render_ops(ops):
 def coq_expr(h, segs):
     cf = "[" + "; ".join("(%d, %s)" % (a["pool"], "true" if a["replica"] else "false") for a in h.w["addrs"]) + "]"
     allops = [o for s in segs for o in s]
-    return ("(run_samples %s %d init [%s], first_disabled %s init %s 0, known_c18 %s, known_c18_wait %s %s)"
-            % (cf, len(h.w["pools"]), "; ".join(render_ops(s) for s in segs), cf, render_ops(allops), render_ops(allops), cf, render_ops(allops)))
+    return ("let cf := %s in let segs := [%s] in let ops := concat segs in (run_samples cf %d init segs, first_disabled cf init ops 0, known_c18 ops, known_c18_wait cf ops)"
+            % (cf, "; ".join(render_ops(s) for s in segs), len(h.w["pools"])))
 
 
 # =========================================================================================== observations
